@@ -379,11 +379,34 @@ class Env:
             return it.call(m, [], {})
         return list(reversed(self.iterate_strict(it, v)))
 
+    def _minmax(self, it, a, k, which):
+        # min / max of two or more numbers (ints, reals; no key function, no iterables of symbolic length)
+        if k or len(a) < 2:
+            if len(a) == 1 and isinstance(a[0], (list, tuple)) and len(a[0]) >= 1 and not k:
+                a = list(a[0])
+            else:
+                raise Unsupported(which)
+        best = a[0]
+        for x in a[1:]:
+            c = self.order(it, 'Lt' if which == 'min' else 'Gt', x, best)
+            if c is True:
+                best = x
+            elif c is False:
+                pass
+            else:
+                if is_real(x) or is_real(best):
+                    best = SV('real', z3.If(c, real_term(x), real_term(best)))
+                elif is_int(x) and is_int(best):
+                    best = SV('int', z3.If(c, int_term(x), int_term(best)))
+                else:
+                    raise Unsupported(which + ' of %r and %r' % (x, best))
+        return best
+
     def bi_min(self, it, a, k):
-        raise Unsupported('min')
+        return self._minmax(it, a, k, 'min')
 
     def bi_max(self, it, a, k):
-        raise Unsupported('max')
+        return self._minmax(it, a, k, 'max')
 
     def bi_abs(self, it, a, k):
         raise Unsupported('abs')
